@@ -313,75 +313,103 @@ func (ci *cinst) list(in []ast.Stmt) []ast.Stmt {
 			}
 			out = append(out, call("vsched", "Access", strLit(lbl)))
 		}
-		switch x := st.(type) {
-		case *ast.GoStmt:
-			out = append(out, ci.goStmt(x))
-			continue
-		case *ast.SelectStmt:
-			out = append(out, call("vsched", "Point", strLit(fmt.Sprintf("%s:%d select", ci.rel, line))))
-			for _, c := range x.Body.List {
-				// a communication that succeeded may be what another thread is waiting for (channel as semaphore)
-				if cc := c.(*ast.CommClause); cc.Comm != nil {
-					sig := call("vsched", "Signal")
-					ci.gen[sig] = true
-					cc.Body = append([]ast.Stmt{sig}, cc.Body...)
-				}
-			}
-			out = append(out, ci.selectStmt(x))
-			continue
-		case *ast.ExprStmt:
-			if u, ok := x.X.(*ast.UnaryExpr); ok && u.Op == token.ARROW {
-				// <-ch  ->  vsched.Recv(ch)
-				x.X = &ast.CallExpr{Fun: &ast.SelectorExpr{X: ast.NewIdent("vsched"), Sel: ast.NewIdent("Recv")}, Args: []ast.Expr{u.X}}
-				out = append(out, st)
-				continue
-			}
-			if c, ok := x.X.(*ast.CallExpr); ok {
-				if id, ok := c.Fun.(*ast.Ident); ok && id.Name == "close" && len(c.Args) == 1 {
-					c.Fun = &ast.SelectorExpr{X: ast.NewIdent("vsched"), Sel: ast.NewIdent("Close")}
-				}
-			}
-		case *ast.SendStmt:
-			// ch <- v  ->  vsched.Send(ch, v)
-			out = append(out, &ast.ExprStmt{X: &ast.CallExpr{Fun: &ast.SelectorExpr{X: ast.NewIdent("vsched"), Sel: ast.NewIdent("Send")}, Args: []ast.Expr{x.Chan, x.Value}}})
-			continue
-		case *ast.LabeledStmt:
-			if s, ok := x.Stmt.(*ast.SelectStmt); ok && !hasDefault(s) {
-				ci.fail(x.Pos(), "labelled blocking select: not supported")
-			}
-		case *ast.RangeStmt:
-			if se, ok := x.X.(*ast.SelectorExpr); ok && ci.mapFld[se.Sel.Name] {
-				if x.Value != nil {
-					ci.fail(x.Pos(), "range with key and value over map field %s: not supported", se.Sel.Name)
-				}
-				if x.Key != nil {
-					x.Value = x.Key
-					x.Key = ast.NewIdent("_")
-				}
-				x.X = &ast.CallExpr{Fun: &ast.SelectorExpr{X: ast.NewIdent("vsched"), Sel: ast.NewIdent("Keys")}, Args: []ast.Expr{x.X}}
-			}
-		case *ast.AssignStmt:
-			if len(x.Rhs) == 1 {
-				if u, ok := x.Rhs[0].(*ast.UnaryExpr); ok && u.Op == token.ARROW {
-					fn := "Recv"
-					if len(x.Lhs) == 2 {
-						fn = "Recv2"
+		pre, post := ci.rw(st, line)
+		out = append(out, pre...)
+		out = ci.stmt(st, line, out)
+		out = append(out, post...)
+	}
+	return out
+}
+
+// stmt rewrites one statement of a list (see the table at the top) and appends the result to out.
+func (ci *cinst) stmt(st ast.Stmt, line int, out []ast.Stmt) []ast.Stmt {
+	switch x := st.(type) {
+	case *ast.GoStmt:
+		out = append(out, ci.goStmt(x))
+		return out
+	case *ast.SelectStmt:
+		out = append(out, call("vsched", "Point", strLit(fmt.Sprintf("%s:%d select", ci.rel, line))))
+		hasSend := false
+		for _, c := range x.Body.List {
+			// a communication that succeeded may be what another thread is waiting for (channel as semaphore)
+			if cc := c.(*ast.CommClause); cc.Comm != nil {
+				sig := call("vsched", "Signal")
+				ci.gen[sig] = true
+				pro := []ast.Stmt{sig}
+				// happens-before: the receive that succeeded acquires what the sender / closer released
+				switch cm := cc.Comm.(type) {
+				case *ast.ExprStmt:
+					if u, ok := cm.X.(*ast.UnaryExpr); ok && u.Op == token.ARROW {
+						pro = append(pro, ci.chanAcquire(u.X, x))
 					}
-					x.Rhs[0] = &ast.CallExpr{Fun: &ast.SelectorExpr{X: ast.NewIdent("vsched"), Sel: ast.NewIdent(fn)}, Args: []ast.Expr{u.X}}
+				case *ast.AssignStmt:
+					if u, ok := cm.Rhs[0].(*ast.UnaryExpr); ok && u.Op == token.ARROW {
+						pro = append(pro, ci.chanAcquire(u.X, x))
+					}
+				case *ast.SendStmt:
+					hasSend = true
 				}
+				cc.Body = append(pro, cc.Body...)
 			}
+		}
+		if hasSend {
+			// the channel of a send case is not named at this point: release to every later receive
+			out = append(out, call("vsched", "HBReleaseGlobal"))
+		}
+		out = append(out, ci.selectStmt(x))
+		return out
+	case *ast.ExprStmt:
+		if u, ok := x.X.(*ast.UnaryExpr); ok && u.Op == token.ARROW {
+			// <-ch  ->  vsched.Recv(ch)
+			x.X = &ast.CallExpr{Fun: &ast.SelectorExpr{X: ast.NewIdent("vsched"), Sel: ast.NewIdent("Recv")}, Args: []ast.Expr{u.X}}
 			out = append(out, st)
-			for _, l := range x.Lhs {
-				if ix, ok := l.(*ast.IndexExpr); ok {
-					if se, ok := ix.X.(*ast.SelectorExpr); ok && ci.mapFld[se.Sel.Name] {
-						out = append(out, call("vsched", "Note", ix.Index))
-					}
-				}
+			return out
+		}
+		if c, ok := x.X.(*ast.CallExpr); ok {
+			if id, ok := c.Fun.(*ast.Ident); ok && id.Name == "close" && len(c.Args) == 1 {
+				c.Fun = &ast.SelectorExpr{X: ast.NewIdent("vsched"), Sel: ast.NewIdent("Close")}
 			}
-			continue
+		}
+	case *ast.SendStmt:
+		// ch <- v  ->  vsched.Send(ch, v)
+		out = append(out, &ast.ExprStmt{X: &ast.CallExpr{Fun: &ast.SelectorExpr{X: ast.NewIdent("vsched"), Sel: ast.NewIdent("Send")}, Args: []ast.Expr{x.Chan, x.Value}}})
+		return out
+	case *ast.LabeledStmt:
+		if s, ok := x.Stmt.(*ast.SelectStmt); ok && !hasDefault(s) {
+			ci.fail(x.Pos(), "labelled blocking select: not supported")
+		}
+	case *ast.RangeStmt:
+		if se, ok := x.X.(*ast.SelectorExpr); ok && ci.mapFld[se.Sel.Name] {
+			if x.Value != nil {
+				ci.fail(x.Pos(), "range with key and value over map field %s: not supported", se.Sel.Name)
+			}
+			if x.Key != nil {
+				x.Value = x.Key
+				x.Key = ast.NewIdent("_")
+			}
+			x.X = &ast.CallExpr{Fun: &ast.SelectorExpr{X: ast.NewIdent("vsched"), Sel: ast.NewIdent("Keys")}, Args: []ast.Expr{x.X}}
+		}
+	case *ast.AssignStmt:
+		if len(x.Rhs) == 1 {
+			if u, ok := x.Rhs[0].(*ast.UnaryExpr); ok && u.Op == token.ARROW {
+				fn := "Recv"
+				if len(x.Lhs) == 2 {
+					fn = "Recv2"
+				}
+				x.Rhs[0] = &ast.CallExpr{Fun: &ast.SelectorExpr{X: ast.NewIdent("vsched"), Sel: ast.NewIdent(fn)}, Args: []ast.Expr{u.X}}
+			}
 		}
 		out = append(out, st)
+		for _, l := range x.Lhs {
+			if ix, ok := l.(*ast.IndexExpr); ok {
+				if se, ok := ix.X.(*ast.SelectorExpr); ok && ci.mapFld[se.Sel.Name] {
+					out = append(out, call("vsched", "Note", ix.Index))
+				}
+			}
+		}
+		return out
 	}
+	out = append(out, st)
 	return out
 }
 
